@@ -64,7 +64,7 @@ def run(tier, seed, replay=None):
     from splipy import curve_factory as cf, surface_factory as sf
     from splipy.io import G2, STL, SVG, SPL
     rng = random.Random(seed)
-    reps = 25 if tier == 'quick' else 300
+    reps = 60 if tier == 'quick' else 300
     dist = {'op': {}, 'pardim': {}, 'rational': {}, 'periodic': {}, 'magnitude': {}}
     evals = 0
     nontriv = set()
